@@ -98,5 +98,6 @@ func (c RCallGraph) BuildRCallChain(funcName string, methodMap map[string][]stri
 }
 
 func escapeStr(name string) string {
+	name = strings.ReplaceAll(name, "\\", "\\\\")
 	return strings.ReplaceAll(name, "\"", "\\\"")
 }
